@@ -34,7 +34,7 @@ m = {
         "name": "vp_static",
         "path": "/verif/vp_static",
         "serves_properties": sorted(CLAIMS["claimed"]),
-        "kind_free_text": "repository-specific static analysis over Python ast: program index + call resolution, effect/alias analysis, raise-after-write ordering, order-type abstract interpretation of comparison-only bodies against spec decision tables, float-order monotonicity prover, symbolic-document interpretation of the text writers and readers (atoms for times and labels, an independent specification-based tokenizer), alignment and sentinel dataflow",
+        "kind_free_text": "repository-specific static analysis over Python ast: program index + call resolution, effect/alias analysis, raise-after-write ordering, order-type abstract interpretation of comparison-only bodies against spec decision tables, float-order monotonicity prover (seams and positive lengths), polynomial-term number domain with uninterpreted sqrt/reciprocal for the numeric helpers (normal form proves, a sample assignment of the derived expressions refutes), symbolic-document interpretation of the text writers and readers (atoms for times and labels, an independent specification-based tokenizer), alignment and sentinel dataflow",
     }],
     "checks": checks,
     "notes": "Exit codes of every command: 0 = all obligations proved (or refuted ones are listed in known_findings.json and printed as KNOWN-FINDING); 1 = VIOLATION line; 2 = ANALYSIS-ERROR (an anchor vanished or a construct is outside the modelled subset) - never a silent pass and never a VIOLATION. Fixed defects and known findings: known_findings.json.",
